@@ -109,12 +109,12 @@ func c02Number(name string, nt int) (string, c02Num) {
 type c02Comm struct{ sym, left, right string }
 
 var c02Comms = []c02Comm{
-	{"$", "$", ""},         // currency sign, left, adjacent
-	{"USD", "", " USD"},    // code, right, one space
-	{"EUR", "EUR", ""},     // code, left, adjacent
+	{"$", "$", ""},          // currency sign, left, adjacent
+	{"USD", "", " USD"},     // code, right, one space
+	{"EUR", "EUR", ""},      // code, left, adjacent
 	{"a b", "", " \"a b\""}, // quoted, right
-	{"€", "", "€"},         // currency sign, right, adjacent
-	{"", "", ""},           // no commodity
+	{"€", "", "€"},          // currency sign, right, adjacent
+	{"", "", ""},            // no commodity
 }
 
 // c02Amount writes an amount: sign placement sp: 0 none, 1 '-' first, 2 '+' first, 3 '-' after a left symbol.
@@ -487,7 +487,9 @@ func VerifC02Neighbour() {
 	if zzverif.Choice("third", 2) == 1 { // one amount-less posting absorbs the remainder
 		ps = append(ps, c02Posting{kind: kind})
 	}
-	with := func(neg bool, digits string, ci int) c02Posting { return c02Posting{has: true, amt: c02Lit(neg, digits, ci)} }
+	with := func(neg bool, digits string, ci int) c02Posting {
+		return c02Posting{has: true, amt: c02Lit(neg, digits, ci)}
+	}
 	none := c02Posting{}
 	var nb []c02Posting
 	switch zzverif.Choice("neighbour", 8) {
